@@ -17,9 +17,12 @@ def cli():
 
 def _ast_to_dict(doc):
     """Convert AST Document to dictionary for JSON/YAML export."""
-    from octave_mcp.core.ast_nodes import Assignment, Block, InlineMap, ListValue, LiteralZoneValue
+    from octave_mcp.core.ast_nodes import Assignment, Block, HolographicValue, InlineMap, ListValue, LiteralZoneValue
 
     def convert_value(value):
+        if isinstance(value, HolographicValue):
+            # no JSON/YAML counterpart: export the pattern's source text
+            return value.raw_pattern
         if isinstance(value, LiteralZoneValue):
             # Issue #235: same structured export as the MCP octave_eject tool (content verbatim)
             return {
